@@ -28,7 +28,8 @@ SUPPLIERS = ["float", "zero_d", "npscalar", "pchip"]
 
 def plan(tier, seed):
     n = 4000 if tier == "quick" else 200000
-    return [{"kind": "random", "start": p * (n // NSHARDS), "count": n // NSHARDS} for p in range(NSHARDS)]
+    return [{"kind": "random", "start": p * (n // NSHARDS), "count": n // NSHARDS} for p in range(NSHARDS)] + \
+        [{"kind": "suite"}]
 
 
 def supplier(kind):
@@ -106,6 +107,10 @@ def run_case(ctx, kind_, idx):
 
 
 def run(ctx, spec):
+    if spec["kind"] == "suite":     # the repository's own tests with the rfa() post-condition attached
+        from .. import suite
+        suite.run_suite(ctx, ["structure", "nth_abscissa", "abscissae_not", "gaps_not"])
+        return
     inst = Installer()
     rfa_mon.install(inst)
     Slot.ctx = ctx
